@@ -118,6 +118,7 @@ type frame struct {
 	dynType  map[ssa.Value]types.Type
 	debug    map[string][]ssa.Value
 	debugAddr map[string]ssa.Value
+	debugRefs map[string][]*ssa.DebugRef
 	heap     *heapState // current heap while executing a block
 	cur      *ssa.BasicBlock
 	guard    Term // reach condition of the current block
@@ -151,12 +152,14 @@ func newFrame(c *Ctx, fn *ssa.Function) *frame {
 	f.findLoops()
 	f.debug = map[string][]ssa.Value{}
 	f.debugAddr = map[string]ssa.Value{}
+	f.debugRefs = map[string][]*ssa.DebugRef{}
 	for _, b := range fn.Blocks {
 		for _, in := range b.Instrs {
 			if d, ok := in.(*ssa.DebugRef); ok {
 				if id, ok := d.Expr.(*ast.Ident); ok {
 					if !d.IsAddr {
 						f.debug[id.Name] = append(f.debug[id.Name], d.X)
+						f.debugRefs[id.Name] = append(f.debugRefs[id.Name], d)
 					} else if _, isAlloc := d.X.(*ssa.Alloc); isAlloc {
 						// address-taken local: the name denotes the variable's cell (auto-dereferenced in specs)
 						f.debugAddr[id.Name] = d.X
@@ -526,14 +529,31 @@ func (f *frame) runLoop(li *loopInfo, order []*ssa.BasicBlock) {
 			nv := c.fresh(k+"~loop", srt)
 			if k == allocKey {
 				c.assume(ge(nv, c.heapGet(be.heap, k, srt)))
-			} else if !dc.nonFresh[k] && strings.HasPrefix(srt, "(Array Int ") {
-				// the loop writes this array only at objects it allocates itself: objects that
-				// existed at loop entry are unchanged
+			} else if !dc.nonFresh[k] && strings.HasPrefix(srt, "(Array Int ") && basesInvariant(dc.writeBases[k], c.defined) {
+				// the loop writes this array only at objects it allocates itself and at objects named
+				// by loop-invariant terms: every other object that existed at loop entry is unchanged
 				c.counter["q"]++
 				q := quote(fmt.Sprintf("q ref %d", c.counter["q"]))
 				old := c.heapGet(be.heap, k, srt)
-				c.assume(Term{fmt.Sprintf("(forall ((%s Int)) (! (=> (>= %s (- %s)) (= (select %s %s) (select %s %s))) :pattern ((select %s %s))))",
-					q, q, c.nalloc(be.heap).S, nv.S, q, old.S, q, nv.S, q), SBool})
+				conds := []string{fmt.Sprintf("(>= %s (- %s))", q, c.nalloc(be.heap).S)}
+				var bs []string
+				for b := range dc.writeBases[k] {
+					bs = append(bs, b)
+				}
+				sort.Strings(bs)
+				for _, b := range bs {
+					conds = append(conds, fmt.Sprintf("(not (= %s %s))", q, b))
+					if c.writeBases[k] == nil {
+						c.writeBases[k] = map[string]Term{}
+					}
+					if !c.freshRefs[b] {
+						c.writeBases[k][b] = dc.writeBases[k][b]
+					}
+				}
+				c.assume(Term{fmt.Sprintf("(forall ((%s Int)) (! (=> (and %s) (= (select %s %s) (select %s %s))) :pattern ((select %s %s))))",
+					q, strings.Join(conds, " "), nv.S, q, old.S, q, nv.S, q), SBool})
+			} else if k != allocKey {
+				c.nonFresh[k] = true
 			}
 			heap1.arrays[k] = nv
 			c.writes[k] = true
@@ -552,6 +572,10 @@ func (f *frame) runLoop(li *loopInfo, order []*ssa.BasicBlock) {
 		env := f.loopEnv(li, hv, heap1)
 		for _, inv := range spec.Invariants {
 			c.assume(implies(reachH, f.evalClause(env, inv)))
+		}
+		for _, as := range spec.Assumes {
+			c.assume(implies(reachH, f.evalClause(env, as)))
+			c.assumed[fmt.Sprintf("assumed at the head of loop %d of %s (not proved): %s", li.ordinal, shortFn(f.fn), as.Text)] = true
 		}
 		if spec.Decreases != nil {
 			variant0 = c.name("variant", f.evalSpec(env, spec.Decreases.E).T)
@@ -1003,3 +1027,13 @@ func (f *frame) safety(kind string, in siteT, goal Term, what string) {
 
 // siteT is anything with a source position (ssa instructions, deferred calls).
 type siteT interface{ Pos() token.Pos }
+
+// basesInvariant: every written object is named by a term that is meaningful before the loop.
+func basesInvariant(bases map[string]Term, defined map[string]bool) bool {
+	for b := range bases {
+		if !symbolsDefined(b, defined) {
+			return false
+		}
+	}
+	return true
+}
